@@ -3,6 +3,80 @@ from ..common import Run, scratch
 from . import symcommon
 
 
+def c11_groups():
+    from .c11 import LAYER_GROUPS
+
+    return LAYER_GROUPS
+
+
+def layer_record(job):
+    """observation of a 2D input reduced to the fields V08 reads"""
+    import numpy as np
+    from ase.build import mx2
+    from matid.symmetry import SymmetryAnalyzer
+
+    from .. import crystals, symrun
+    from . import c11
+
+    kind, key, k = job
+    # layers are generated independently of VERIF_SEED (pinned inputs: findings on 2D inputs are listed by key)
+    import os
+
+    saved = os.environ.get("VERIF_SEED")
+    os.environ["VERIF_SEED"] = "0"
+    try:
+        return _layer_record(kind, key, k)
+    finally:
+        if saved is None:
+            os.environ.pop("VERIF_SEED", None)
+        else:
+            os.environ["VERIF_SEED"] = saved
+
+
+def _layer_record(kind, key, k):
+    import numpy as np
+    from ase.build import mx2
+    from matid.symmetry import SymmetryAnalyzer
+
+    from .. import crystals, symrun
+    from . import c11
+
+    if kind == "named" and key.startswith("MoSSe"):
+        base = mx2("MoS2", "2H", a=3.18, thickness=3.19 if key == "MoSSe" else 3.31, vacuum=6)
+        nums = base.numbers.copy()
+        nums[np.argmax(base.positions[:, 2])] = 34  # Janus layer: polar, free z
+        base.numbers = nums
+        base.set_pbc([True, True, False])
+    else:
+        base = c11.named(key) if kind == "named" else c11.gen_layer(key, k)
+    if base is None:
+        return None
+    out = []
+    for mt in (0.5, 1.0, 3.0):
+        r = {"sg": 0, "cid": "2d/%s/%s" % (key, k), "j": 0, "pres": {"two_dimensional": True, "min_2d_thickness": mt}, "gen_letters": ["2D:%s" % key],
+             "gen_species": [], "psets_error": "", "psets": [], "sets": [], "has_free": False, "number": 1, "eps_tol": 8, "two_dimensional": True,
+             "conv": {"pos": [], "n": 0}}
+        try:
+            an = SymmetryAnalyzer(base, symmetry_tol=0.05, min_2d_thickness=mt)
+            conv = an.get_conventional_system()
+            r["number"] = int(an.get_space_group_number())
+            r["conv"] = {"pos": crystals.qgrid(conv.get_scaled_positions(wrap=False)), "n": len(conv)}
+            lens = np.linalg.norm(conv.get_cell()[:], axis=1)
+            r["eps_tol"] = int(np.ceil(0.05 / lens.min() * crystals.Q)) + 8
+            r["has_free"] = bool(an.get_has_free_wyckoff_parameters())
+            r["sets"] = [{"letter": str(s.wyckoff_letter), "z": int(s.atomic_number), "mult": int(s.multiplicity), "idx": [int(i) + 1 for i in s.indices]}
+                         for s in an.get_wyckoff_sets_conventional(return_parameters=False)]
+            ps = an.get_wyckoff_sets_conventional(return_parameters=True)
+            r["psets"] = [{"letter": str(s.wyckoff_letter), "z": int(s.atomic_number), "idx": [int(i) + 1 for i in s.indices],
+                           "x": symrun._enc_param(s.x), "y": symrun._enc_param(s.y), "z_": symrun._enc_param(s.z),
+                           "in_unit": all(v is None or (0 <= v < 1) for v in (s.x, s.y, s.z)), "rep": [str(c) for c in s.representative]} for s in ps]
+        except Exception as e:
+            r["psets_error"] = "%s: %s" % (type(e).__name__, str(e)[:160])
+        r["sg"] = r["number"]
+        out.append(r)
+    return out
+
+
 def run(tier):
     run = Run("C08", tier, "exploration")
     d = scratch("c08")
@@ -21,8 +95,23 @@ def run(tier):
                 jobs.append((sg, 1, 1, [letters[i], letters[i + 1]], 150, "C08"))
     jobs += [(sg, 2, 2, None, 64, "C08") for sg in range(1, 231) if tier == "thorough" or sg % 3 == 0]
     recs = symcommon.collect(run, jobs)
+    # two-dimensionally periodic inputs (the property quantifies over them as well)
+    layer_jobs = [("named", n, 0) for n in ("MoS2", "TiS2", "BN", "MoSSe", "MoSSe-b")] + [("group", sg, k) for sg in c11_groups() for k in ([0] if tier == "quick" else [0, 1])]
+    from ..common import pmap
+
+    n2d = 0
+    for r in pmap(layer_record, layer_jobs, chunksize=2):
+        if r is None:
+            continue
+        for rr in r:
+            rr["tid"] = len(recs) + 1
+            rr["first"] = rr["tid"]
+            recs.append(rr)
+            n2d += 1
+    run.notes["two_dimensional_inputs"] = n2d
     symcommon.judge(run, recs, "C08", d, lambda r, c: (
-        "C08 clause=%s sg=%d letters=%s" % (c, r["sg"], sorted(set(r["gen_letters"]))),
+        "C08 clause=%s sg=%d letters=%s%s" % (c, r["sg"], sorted(set(r["gen_letters"])),
+                                              (" k=%s" % r["cid"].split("/")[-1]) if r.get("two_dimensional") else ""),
         "%s: %s on a crystal of group %d with orbits on %s" % (c, r.get("psets_error") or [(s["letter"], s["x"], s["y"], s["z_"]) for s in r["psets"]], r["sg"], r["gen_letters"])))
     for r in recs:
         for s in r["sets"]:
